@@ -192,8 +192,8 @@ open SV.Model.SM SV.Spec.SM in
 /-- non-vacuity: two iterations — a failing scenario and an errored one (then Flaky), then a clean run — give a stream
     of two bracketed suites with three scenarios -/
 example :
-    (thread .repaired 0 {} [⟨[⟨false, [⟨1, false, .responds [.fail [7]]⟩]⟩, ⟨false, [⟨2, false, .raises⟩]⟩], .flaky, false⟩,
-                            ⟨[⟨false, [⟨1, false, .responds [.fail [7]]⟩]⟩], .ok, false⟩]).out =
+    (thread .repaired 0 {} [⟨[⟨false, [⟨1, false, .responds [.fail [7]]⟩], false⟩, ⟨false, [⟨2, false, .raises⟩], false⟩], .flaky, false⟩,
+                            ⟨[⟨false, [⟨1, false, .responds [.fail [7]]⟩], false⟩], .ok, false⟩]).out =
       [.suiteStarted 0, .scenStarted 1, .scenFinished 1 .failure, .scenStarted 2, .scenFinished 2 .error, .suiteFinished 0 .failure,
        .suiteStarted 1, .scenStarted 3, .scenFinished 3 .success, .suiteFinished 1 .success] := by
   decide
@@ -205,6 +205,6 @@ open SV.Model.SM SV.Spec.SM in
 theorem stateful_status_monotone_full_false :
     ∃ runs : List Run, (SV.Model.Stateful.SEv.scenFinished 2 .error) ∈ (thread .asFound 0 {} runs).out ∧
       (SV.Model.Stateful.SEv.suiteFinished 0 .failure) ∈ (thread .asFound 0 {} runs).out ∧ Status.rank .failure < Status.rank .error :=
-  ⟨[⟨[⟨false, [⟨1, false, .responds [.fail [7]]⟩]⟩, ⟨false, [⟨2, false, .raises⟩]⟩], .flaky, false⟩, ⟨[], .ok, false⟩], by decide⟩
+  ⟨[⟨[⟨false, [⟨1, false, .responds [.fail [7]]⟩], false⟩, ⟨false, [⟨2, false, .raises⟩], false⟩], .flaky, false⟩, ⟨[], .ok, false⟩], by decide⟩
 
 end SV.Props.C11
